@@ -571,20 +571,30 @@ Qed.
 
 (* ------------------------------------------------------------------------------------------ *)
 (* the WITHDRAW_REWARD transaction                                                              *)
-Lemma withdraw_tx_negative value bal wd pool : value < 0 -> withdraw_tx value bal wd pool = (false, bal, wd).
-Proof. intros H. unfold withdraw_tx. destruct (value <? 0) eqn:E; [reflexivity|]. apply Z.ltb_ge in E. lia. Qed.
+Lemma withdraw_tx_invalid value bal wd pool : value < 0 \/ 2^63 <= value ->
+  withdraw_tx value bal wd pool = (false, bal, wd).
+Proof.
+  intros H. unfold withdraw_tx, withdraw_amount_ok.
+  destruct (0 <=? value) eqn:E1; destruct (value <? 2^63) eqn:E2; simpl; try reflexivity.
+  apply Z.leb_le in E1. apply Z.ltb_lt in E2. lia.
+Qed.
 
 Lemma wrap64_small z : - 2^63 <= z < 2^63 -> wrap64 z = z.
 Proof. intros H. unfold wrap64. rewrite Z.mod_small; lia. Qed.
 
-Lemma withdraw_tx_in_range value bal wd pool bal' wd' : 0 <= value < 2^63 ->
-  withdraw_tx value bal wd pool = (true, bal', wd') ->
-  let a := value * UNIT in
-  0 <= a <= bal /\ a <= pool /\ bal' = bal - a /\ wd' = wd + a.
+(* over ALL amounts: refused without any change, or exactly a = value * 10^18 moved, with
+   0 <= a <= balance and a <= pool *)
+Lemma withdraw_tx_total value bal wd pool ok bal' wd' :
+  withdraw_tx value bal wd pool = (ok, bal', wd') ->
+  (ok = false /\ bal' = bal /\ wd' = wd) \/
+  (ok = true /\ let a := value * UNIT in 0 <= a <= bal /\ a <= pool /\ bal' = bal - a /\ wd' = wd + a).
 Proof.
-  intros Hv. unfold withdraw_tx. destruct (value <? 0) eqn:E; [discriminate|].
-  rewrite wrap64_small by lia.
-  destruct ((bal - value * UNIT <? 0) || (pool - value * UNIT <? 0)) eqn:E2; [discriminate|].
-  apply orb_false_iff in E2 as [E3 E4]. apply Z.ltb_ge in E3, E4.
-  intros H. injection H as <- <-. simpl. unfold UNIT in *. lia.
+  unfold withdraw_tx, withdraw_amount_ok.
+  destruct (0 <=? value) eqn:E1; destruct (value <? 2^63) eqn:E2; simpl;
+    try (intros H; injection H as <- <- <-; left; auto; fail).
+  apply Z.leb_le in E1. apply Z.ltb_lt in E2. rewrite wrap64_small by lia.
+  destruct ((bal - value * UNIT <? 0) || (pool - value * UNIT <? 0)) eqn:E3.
+  - intros H; injection H as <- <- <-; left; auto.
+  - apply orb_false_iff in E3 as [E4 E5]. apply Z.ltb_ge in E4, E5.
+    intros H; injection H as <- <- <-. right. simpl. unfold UNIT in *. repeat split; lia.
 Qed.
